@@ -82,6 +82,7 @@ pub struct World {
     pub violations: Vec<Violation>,
     pub panics: Vec<String>,
     pub ended: bool,
+    pub end_us: u64,
     pub intentional_yield: bool,
     pub active: bool,
     pub rng_state: u64,
@@ -110,6 +111,7 @@ impl World {
             violations: Vec::new(),
             panics: Vec::new(),
             ended: false,
+            end_us: 0,
             intentional_yield: false,
             active: false,
             rng_state: 0,
@@ -154,6 +156,11 @@ pub fn start_clock() {
 }
 
 pub fn now_us() -> u64 {
+    // after the simulation has ended (tear-down of the runtime) there is no virtual clock any
+    // more: events logged then carry the end instant
+    if let Some(t) = with(|w| if w.ended { Some(w.end_us) } else { None }) {
+        return t;
+    }
     let now = tokio::time::Instant::now();
     with(|w| match w.t0 {
         Some(t0) => now.duration_since(t0).as_micros() as u64,
@@ -220,6 +227,11 @@ pub fn digest(log: &[Rec]) -> u64 {
     #[allow(deprecated)]
     let mut h = std::hash::SipHasher::new_with_keys(0x5eed, 0x7057);
     for r in log {
+        // events after SimEnd come from tearing the runtime down; their order depends on tokio's
+        // process-global task ids and is not part of the simulated execution
+        if matches!(r.ev, Ev::SimEnd) {
+            break;
+        }
         r.seq.hash(&mut h);
         r.t_us.hash(&mut h);
         r.task.hash(&mut h);
